@@ -1,5 +1,6 @@
 /* props_generic.c -- C01 C02 C03 C04 C05 C08 oracles over the generic case */
 #include "generic.h"
+#include "wraps.h"
 
 static gexec_t X;
 
@@ -375,6 +376,12 @@ static void exec_c05(const void *k, res_t *r, const runcfg_t *cfg) {
     r->hash = gc_hash(c);
     common_labels(c, r);
     dv = definite_violation(c, row, codes, &ncodes);
+    if (g_globstate_calls) { /* C12: the call used process-wide state of libc */
+        r->nontrivial = 1;
+        RES_VIOL(r, "C12:%s:process-wide-state:%s", row->name, g_globstate_sym ? g_globstate_sym : "?");
+        RES_DETAIL(r, "%d call(s) of %s (and possibly others) were made inside the library call: state shared by every thread of the process", g_globstate_calls, g_globstate_sym ? g_globstate_sym : "?");
+        return;
+    }
     if (X.faulted) {
         /* a size above the RSIZE limit must be rejected before dest or src is touched */
         if (X.sig == SIGSEGV && (c->dkind == DK_OVERMAX || ((row->fl & F_SLEN) && c->slen > row->dmax_max * (size_t)row->du / (size_t)row->su))) {
